@@ -38,6 +38,12 @@ type cfg struct {
 	Shape    int    `json:"shape,omitempty"`  // module shape 1..4 (guest.go); 0 = 1. All instances of a world have the same shape
 	RefDepth int    `json:"-"`                // length up to which lone references exist for this configuration (set by main)
 	Shared   bool   `json:"shared"`           // true: ONE ModuleConfig value (one stdout writer, one mount) is reused for every instance
+	// Pre is the PRELUDE of the runtimes: what each runtime did before it ever saw WASI, env or the guest. ""= nothing
+	// (all runtimes of the world have the same history). Otherwise "<kind>:<assignment>": assignment has one character
+	// per runtime — 'X' / 'Y' = that runtime first met bystander module X / Y (guest.go), '-' = it did not — and kind
+	// says how far it went: "compiled" (CompileModule only), "open" (instantiated, run() called, left open for the
+	// whole life of the world), "closed" (instantiated, run() called, closed again). The lone reference never has a prelude.
+	Pre string `json:"pre,omitempty"`
 }
 
 func (c cfg) String() string {
@@ -47,6 +53,9 @@ func (c cfg) String() string {
 	}
 	if c.CapMax {
 		s += "/capmax"
+	}
+	if c.Pre != "" {
+		s += "/pre=" + c.Pre
 	}
 	return s
 }
@@ -81,6 +90,7 @@ type obs struct {
 	FDs      string // file table: fd:name:preopen:type:offset
 	Stdout   string // captured stdout of the instance's slot (per-instance configs only)
 	Peek     string // guest-view digest returned by the guest's peek()
+	BadCall  string // result class of the guest's wrongly typed call_indirect (badcall)
 }
 
 func (o obs) diff(p obs) (field, got, want string) {
@@ -91,7 +101,7 @@ func (o obs) diff(p obs) (field, got, want string) {
 	for _, x := range []f{{"exists", o.Exists, p.Exists}, {"instantiate", o.InstErr, p.InstErr}, {"closed", o.Closed, p.Closed},
 		{"memory.size", o.MemPages, p.MemPages}, {"memory.bytes", o.MemCRC, p.MemCRC}, {"global.g0", o.G0, p.G0}, {"global.g1", o.G1, p.G1},
 		{"table", o.Table, p.Table}, {"data-segments", o.Data, p.Data}, {"elem-segments", o.Elem, p.Elem}, {"fds", o.FDs, p.FDs},
-		{"stdout", o.Stdout, p.Stdout}, {"guest-peek", o.Peek, p.Peek}} {
+		{"stdout", o.Stdout, p.Stdout}, {"guest-peek", o.Peek, p.Peek}, {"guest-badcall", o.BadCall, p.BadCall}} {
 		if x.a != x.b {
 			return x.n, fmt.Sprint(x.a), fmt.Sprint(x.b)
 		}
@@ -195,6 +205,10 @@ type world struct {
 	mcs      [3]wazero.ModuleConfig
 	slotOf   [3]int       // mount/stdout slot of instance j (loneSlot for a lone world)
 	abs      []string     // failures of the absolute oracle during the current word
+	absAt    []absAt      // parallel to abs
+	curStep  int          // index of the step of the current word that is being executed (-1 before the first)
+	preFail  string       // a bystander of the prelude misbehaved (absolute: its run() result is a known constant)
+	bystand  []api.Module // bystanders left open by the prelude
 	hostSaw  []api.Module // the api.Module values handed to env.h_refl / env.h_gomod during the current step
 }
 
@@ -287,6 +301,7 @@ func newWorld(c cfg, dirs *hostDirs, loneSlot int) *world {
 			rc = rc.WithCompilationCache(w.caches[r%len(w.caches)])
 		}
 		rt := wazero.NewRuntimeWithConfig(ctx, rc)
+		w.prelude(rt, r, nrt)
 		if _, err := wasi_snapshot_preview1.Instantiate(ctx, rt); err != nil {
 			fatalf("wasi: %v", err)
 		}
@@ -347,6 +362,68 @@ func newWorld(c cfg, dirs *hostDirs, loneSlot int) *world {
 		}
 	}
 	return w
+}
+
+// bystanderBins: the two unrelated modules of the prelude.
+var bystanderBins = map[byte][]byte{'X': bystanderModule('X'), 'Y': bystanderModule('Y')}
+
+func (c cfg) preParts() (kind, assign string) {
+	if c.Pre == "" {
+		return "", ""
+	}
+	i := strings.IndexByte(c.Pre, ':')
+	if i < 0 {
+		fatalf("bad prelude %q", c.Pre)
+	}
+	return c.Pre[:i], c.Pre[i+1:]
+}
+
+// prelude gives runtime r its history (cfg.Pre): before WASI, env and the guest are known to it, it compiles /
+// instantiates / closes a bystander module. With two runtimes the bystander is NAMED like the guest instance that
+// lives in the other runtime (names are per runtime; the same name in another runtime must mean nothing).
+func (w *world) prelude(rt wazero.Runtime, r, nrt int) {
+	kind, assign := w.c.preParts()
+	if kind == "" {
+		return
+	}
+	if len(assign) != nrt {
+		fatalf("prelude %q does not fit %d runtime(s)", w.c.Pre, nrt)
+	}
+	b := assign[r]
+	if b == '-' {
+		return
+	}
+	cm, err := rt.CompileModule(ctx, bystanderBins[b])
+	if err != nil {
+		fatalf("bystander %c rejected: %v", b, err)
+	}
+	if kind == "compiled" {
+		return
+	}
+	name := "c11-bystander"
+	if nrt == 2 {
+		name = fmt.Sprintf("c11-inst%d", 1-r)
+	}
+	mod, err := rt.InstantiateModule(ctx, cm, wazero.NewModuleConfig().WithName(name))
+	if err != nil {
+		fatalf("bystander %c: %v", b, err)
+	}
+	want := uint64(106)
+	if b == 'Y' {
+		want = 206
+	}
+	res, err := mod.ExportedFunction("run").Call(ctx)
+	if err != nil || len(res) != 1 || res[0] != want {
+		w.preFail = fmt.Sprintf("bystander %c in runtime %d: run() = %v, %v; a lone one returns %d", b, r, res, err, want)
+	}
+	switch kind {
+	case "open":
+		w.bystand = append(w.bystand, mod)
+	case "closed":
+		mod.Close(ctx)
+	default:
+		fatalf("bad prelude kind %q", kind)
+	}
 }
 
 func (w *world) close() {
@@ -447,8 +524,16 @@ var initialImage = func() (img [numShapes][2][]byte) {
 	return
 }()
 
-func (w *world) absFail(format string, a ...any) {
+// absAt says where in the word an absolute-oracle failure was seen: the instance, the step during which it happened
+// (-1: an instantiation before the first step, eager policies) and what was being checked.
+type absAt struct {
+	Inst, Step int
+	Kind       string // "instantiate" | "grow" | "prelude"
+}
+
+func (w *world) absFail(kind string, j int, format string, a ...any) {
 	if len(w.abs) < 8 {
+		w.absAt = append(w.absAt, absAt{j, w.curStep, kind})
 		w.abs = append(w.abs, fmt.Sprintf(format, a...))
 	}
 }
@@ -464,21 +549,21 @@ func (w *world) checkFresh(j int, in *inst) {
 			for at < len(m.Buffer) && at < 65536 && m.Buffer[at] == initialImage[sh-1][v][at] {
 				at++
 			}
-			w.absFail("fresh instance %d: memory (len %d) differs from its initial image at offset %d", j, len(m.Buffer), at)
+			w.absFail("instantiate", j, "fresh instance %d: memory (len %d) differs from its initial image at offset %d", j, len(m.Buffer), at)
 		}
 		spare := m.Buffer[len(m.Buffer):cap(m.Buffer)]
 		for i, b := range spare {
 			if b != 0 {
-				w.absFail("fresh instance %d: spare memory capacity is not zero at offset %d", j, len(m.Buffer)+i)
+				w.absFail("instantiate", j, "fresh instance %d: spare memory capacity is not zero at offset %d", j, len(m.Buffer)+i)
 				break
 			}
 		}
 	}
 	if g := in.mod.ExportedGlobal("g0").Get(); g != uint64(10+v) {
-		w.absFail("fresh instance %d: global g0 = %d, initialiser is %d", j, g, 10+v)
+		w.absFail("instantiate", j, "fresh instance %d: global g0 = %d, initialiser is %d", j, g, 10+v)
 	}
 	if g := in.mod.ExportedGlobal("g1").Get(); g != uint64(0x1111111111111111*int64(v+1)) {
-		w.absFail("fresh instance %d: global g1 = %#x, initialiser is %#x", j, g, uint64(0x1111111111111111*int64(v+1)))
+		w.absFail("instantiate", j, "fresh instance %d: global g1 = %#x, initialiser is %#x", j, g, uint64(0x1111111111111111*int64(v+1)))
 	}
 	fA := mi.Source.ImportFunctionCount // fA, fB are the first two functions of the module
 	want := fmt.Sprintf("f%d - - - ", fA)
@@ -489,7 +574,7 @@ func (w *world) checkFresh(j int, in *inst) {
 		want = "- - - - "
 	}
 	if got := w.refString(mi, mi.Tables[0].References); got != want {
-		w.absFail("fresh instance %d: table = [%s], active element segments give [%s]", j, got, want)
+		w.absFail("instantiate", j, "fresh instance %d: table = [%s], active element segments give [%s]", j, got, want)
 	}
 }
 
@@ -501,7 +586,7 @@ func (w *world) checkGrown(j int, in *inst, oldLen int) {
 	}
 	for i, b := range m.Buffer[oldLen:] {
 		if b != 0 {
-			w.absFail("instance %d: page exposed by memory.grow is not zero at offset %d (value %#x)", j, oldLen+i, b)
+			w.absFail("grow", j, "instance %d: page exposed by memory.grow is not zero at offset %d (value %#x)", j, oldLen+i, b)
 			return
 		}
 	}
@@ -574,6 +659,7 @@ func (w *world) observe(j int, in *inst) (o obs) {
 		return
 	}
 	o.Peek = in.call(in.mod.ExportedFunction(peekName))
+	o.BadCall = in.call(in.mod.ExportedFunction(badCallName))
 	mi := in.mi
 	o.Closed = in.mod.IsClosed()
 	if m := mi.MemoryInstance; m != nil {
@@ -652,6 +738,7 @@ type wordResult struct {
 	final     []obs      // per instance
 	sharedOut []string   // Shared config only: the chunk that each step appended to the one configured stdout writer
 	abs       []string   // failures of the absolute oracle (fresh-instance state, zero-filled grown pages)
+	absAt     []absAt    // parallel to abs: instance, step and kind of check
 }
 
 // runWord executes a merged word with fresh instances in world w and closes the instances afterwards.
@@ -661,7 +748,10 @@ func (w *world) runWord(word []step) wordResult {
 	for j := range w.stdout {
 		w.stdout[j].Reset()
 	}
-	w.abs = nil
+	w.abs, w.absAt, w.curStep = nil, nil, -1
+	if w.preFail != "" {
+		w.absFail("prelude", -1, "%s", w.preFail)
+	}
 	switch w.c.Policy {
 	case "eager":
 		for j := 0; j < n; j++ {
@@ -673,7 +763,8 @@ func (w *world) runWord(word []step) wordResult {
 		}
 	}
 	res := wordResult{results: make([][]string, n), final: make([]obs, n)}
-	for _, s := range word {
+	for k, s := range word {
+		w.curStep = k
 		if insts[s.I] == nil {
 			insts[s.I] = w.instantiate(s.I)
 		}
@@ -721,6 +812,6 @@ func (w *world) runWord(word []step) wordResult {
 			in.mod.Close(ctx)
 		}
 	}
-	res.abs = w.abs
+	res.abs, res.absAt = w.abs, w.absAt
 	return res
 }
